@@ -21,7 +21,8 @@ ASSUMPTIONS = ["'never presented' is claimed only outside the recorded class C29
                "read/taken before the timestamp it was written with + lifespan); inside the class the real reader "
                "returns expired samples",
                "the scenario family keeps datagrams in order (held datagrams are released before newer ones are "
-               "delivered), so the reliable-protocol state machine is not part of this model"]
+               "delivered), so the reliable-protocol state machine is not part of this model; holes in the sequence "
+               "numbers (samples expired at write, or expired behind live ones) are part of the family"]
 
 MS = 1000000
 NS = 1000000000
@@ -31,57 +32,52 @@ LS = [100 * MS, 200 * MS, 55 * MS, NS, 120 * MS]
 
 def gen_case(r, big):
     L = r.choice(LS)
-    late_joiner = r.random() < 0.3
+    late_joiner = r.random() < 0.35
     rel = 1 if late_joiner else r.choice([0, 1])
-    ops = []  # (harness text, lop term or None, kind)
+    ops = []
     now = T0 + 100 * MS
     joined = not late_joiner
     flight = 0
     held = 0
     sn = 0
     n = r.randint(4, 14 if big else 10)
-    hole = False
-    alive = {}  # sn -> expiry of the changes the writer history holds
-
-    def can_join():
-        live = sorted(k for k, e in alive.items() if e > now)
-        return sn == 0 or (live and live == list(range(live[0], sn + 1)))
+    alive = {}  # sn -> expiry of the changes the writer history holds (expiry is per change:
+    #             source timestamp + lifespan, NOT by position in the history)
 
     for i in range(n):
         k = r.random()
-        if k < 0.35 and sn < 200 and not hole:
+        if k < 0.38 and sn < 200:
             sn += 1
             q = r.random()
             ts = None
-            if q < 0.2:
-                ts = max(0, now - r.choice([1, L - 1, L, L + 1, L // 2, 10 * MS]))
-            elif q < 0.3:
+            if q < 0.35:
+                # an OLDER source timestamp than the clock (and usually than the previous sample):
+                # still alive, exactly expired, or expired at write (leaves a hole in the
+                # sequence numbers)
+                ts = max(0, now - r.choice([1, L - 1, L - 1, L, L + 1, L // 2, L // 2, L // 3, 10 * MS, 3 * L // 4]))
+            elif q < 0.45:
                 ts = now + r.choice([1, 10 * MS, L])
             ops.append(("w", sn, ts))
             tsv = now if ts is None else ts
-            if joined and tsv + L > now:
-                flight += 1
-            alive[sn] = tsv + L
-            if tsv + L <= now:
-                del alive[sn]
-            if tsv + L <= now:
-                # a sample dropped at write leaves a hole in the sequence numbers; what the RTPS
-                # writer does with the NEXT change after a hole (GAP handling) belongs to other
-                # properties: no further writes in this scenario
-                hole = True
-        elif k < 0.6:
+            if tsv + L > now:
+                alive[sn] = tsv + L
+                if joined:
+                    flight += 1
+        elif k < 0.62:
             dt = max(1, r.choice([L, L // 2, L - 1, L + 1, 2 * L, 10 * MS, 50 * MS, 1]) + r.choice([0, 0, 1, -1, 1000]))
-            live = [e for e in alive.values() if e > now]
-            if live and r.random() < 0.3:
-                # exactly to (or 1 ns around) the expiry of the oldest live change
-                dt = max(1, min(live) - now + r.choice([0, 0, -1, 1]))
+            live = sorted(e for e in alive.values() if e > now)
+            q = r.random()
+            if live and q < 0.3:
+                # exactly to (or 1 ns around) the expiry of the first change to expire
+                dt = max(1, live[0] - now + r.choice([0, 0, -1, 1]))
+            elif len(live) > 1 and live[0] < live[-1] and q < 0.55:
+                # between the first and the last expiry (some changes expired, others alive)
+                dt = max(1, r.randint(live[0], live[-1]) - now)
             ops.append(("adv", dt))
             now += dt
-        elif k < 0.8:
+        elif k < 0.82:
             if not joined:
-                # the late joiner must find a history without holes (what the RTPS writer sends
-                # for a history with holes is the subject of other properties)
-                if r.random() < 0.5 and can_join():
+                if r.random() < 0.5:
                     ops.append(("join",))
                     joined = True
                 continue
@@ -99,11 +95,9 @@ def gen_case(r, big):
         else:
             if joined:
                 ops.append((r.choice(["t", "t", "r"]),))
-    if not joined and can_join():
+    if not joined:
         ops.append(("join",))
         joined = True
-    if not joined:
-        return gen_case(r, big)
     if held:
         ops.append(("rel",))
     ops.append(("net",))
@@ -126,6 +120,17 @@ def corpus():
         (L, 1, False, (("w", 1, None), ("net",), ("adv", L), ("r",), ("adv", 1), ("t",))),
         # late joiner: the expired part of the history is not sent, the rest is
         (L, 1, True, (("w", 1, None), ("adv", 120 * MS), ("w", 2, None), ("adv", 100 * MS), ("join",), ("t",))),
+        # out-of-order expiry (seeded change C29): A (ts = now) then B written with an older timestamp
+        # (L/4 left at write); the reader joins after B's expiry and before A's: only A is sent
+        (L, 1, True, (("w", 1, None), ("w", 2, T0 + 100 * MS - 3 * L // 4), ("adv", L // 2), ("join",), ("t",))),
+        (L, 1, True, (("w", 1, None), ("w", 2, T0 + 100 * MS - 3 * L // 4), ("w", 3, None), ("adv", L // 4), ("join",), ("r",),
+                      ("w", 4, None), ("net",), ("t",))),
+        # a hole (sample 2 expired at write) followed by further writes, best-effort and reliable
+        (L, 0, False, (("w", 1, None), ("w", 2, T0 + 100 * MS - L), ("w", 3, None), ("net",), ("t",))),
+        (L, 1, False, (("w", 1, None), ("w", 2, T0 + 100 * MS - L), ("w", 3, None), ("net",), ("w", 4, None), ("net",), ("t",))),
+        # late joiner whose history has a hole in the middle and an expired change at the end
+        (L, 1, True, (("w", 1, None), ("w", 2, T0 + 100 * MS - L), ("w", 3, None), ("w", 4, T0 + 100 * MS - L + 10 * MS),
+                      ("adv", 20 * MS), ("join",), ("t",))),
         # late joiner exactly at the expiry of sample 1 (1 ns before the expiry of sample 2)
         (L, 1, True, (("w", 1, None), ("w", 2, T0 + 100 * MS + 1), ("adv", L), ("join",), ("t",))),
         # expired at write / exactly at the boundary
